@@ -105,6 +105,39 @@ class _Raw(io.BytesIO):
         pass
 
 
+class TrackedChunk(bytes):
+    """Body data handed to the library; its lifetime (reference counting) is how long the library holds that data."""
+
+    def __del__(self):
+        tr = getattr(self, '_tr', None)
+        if tr is not None:
+            tr.dropped(self._label, len(self))
+
+
+class ChunkTracker:
+    """Bytes of response-body data currently alive inside the library, per transfer label (a lower bound of what it buffers:
+    data the library copies or re-slices is no longer seen)."""
+
+    def __init__(self):
+        self.lock = threading.RLock()
+        self.alive = {}
+        self.peak = {}
+
+    def wrap(self, chunk, label):
+        t = TrackedChunk(chunk)
+        t._label = label
+        with self.lock:
+            a = self.alive[label] = self.alive.get(label, 0) + len(t)
+            if a > self.peak.get(label, 0):
+                self.peak[label] = a
+        t._tr = self
+        return t, a
+
+    def dropped(self, label, n):
+        with self.lock:
+            self.alive[label] = self.alive.get(label, 0) - n
+
+
 class RawBody:
     """Streaming GetObject body: scripted short reads and a fault after b bytes."""
 
@@ -158,7 +191,10 @@ class RawBody:
                     raise InjectedError(f['tag'])
         chunk = self.data[self.pos:self.pos + want]
         self.pos += len(chunk)
-        w.log.add('body.read', key=self.callkey, label=self.label, call_id=self.call_id, nbytes=len(chunk), pos=self.pos)
+        alive = None
+        if chunk and getattr(w, 'chunks', None) is not None:
+            chunk, alive = w.chunks.wrap(chunk, self.label)
+        w.log.add('body.read', key=self.callkey, label=self.label, call_id=self.call_id, nbytes=len(chunk), pos=self.pos, alive=alive)
         if not chunk and (amt is None or amt > 0):
             self._end('eof')
         w.director.point(f'{self.callkey}.read#{k}', 'after')
@@ -200,6 +236,7 @@ class FakeS3:
         self.harness_errors = []
         self.wire_errors = []  # protocol-level inconsistencies seen on uploads
         self.api_only = False  # True: short-circuit at before-call (no bodies)
+        self.chunks = ChunkTracker()
 
     # ------------------------------------------------------------------ client
     def make_client(self, checksum_calc='when_supported', scheme='https', checksum_validation='when_supported'):
